@@ -63,6 +63,33 @@ def run(tier, seed, rng):
                                     oracle_rejects=True, correspondence=CORRESPONDENCES[0], theorems=THEOREMS, oracle='run completes'))
             continue
         moA = kfacmachine.run_model(cfg, base, [])
+        # --- a state kept in memory (not copied) and loaded LATER must still be the state of its boundary ---
+        bs_ = [b for b in boundaries(base) if 0 < b < len(base)]
+        if bs_:
+            b = rng.choice(bs_)
+            cfgh = dict(cfg, hold_state=True)
+            hist = base[:b] + [['save', 1]] + base[b:] + [['load', 0, 0]]
+            case = {'cfg': cfgh, 'history': hist, 'boundary_after_steps': sum(1 for e in base[:b] if e[0] == 'step'), 'kind': 'held-state', 'seed': seed + k}
+            resH, wH = kfacmachine.run_impl(cfgh, hist, W, seed=seed + k)
+            cov.add(case, True, sample_cap=1); cov.count('held_state_rewind', 1)
+            probs = []
+            if wH is not None and (wH.errors or wH.deadlock):
+                probs.append(f'simdist: {wH.errors[:2]} {wH.deadlock}')
+            for r in range(W):
+                rh, ra = resH.get(r), resA.get(r)
+                if rh is None or ra is None or rh[-1]['error']:
+                    probs.append(f'rank {r}: {None if rh is None else rh[-1]["error"]}')
+                    continue
+                ref, got = ra[b - 1], rh[-1]
+                if got['steps'] != ref['steps']:
+                    probs.append(f'rank {r}: steps after loading the held state = {got["steps"]}, saved at {ref["steps"]}')
+                for li, ((a, g), (pa, pg)) in enumerate(zip(got['factors'], ref['factors'])):
+                    if a is None or pa is None or not (torch.equal(a, pa) and torch.equal(g, pg)):
+                        probs.append(f'rank {r} layer {li}: a state dict kept in memory was changed by later training (loaded factors differ from those of its boundary)')
+            if probs:
+                failures.append(Failure(what='; '.join(probs[:3])[:500], case=case, impl=probs[:6], model='Kfac: Save is read-only (save_is_read_only)',
+                                        oracle_rejects=True, correspondence=CORRESPONDENCES[0], theorems=THEOREMS,
+                                        oracle='loading a saved state restores the factors of the boundary it was saved at'))
         for b in boundaries(base):
             for incl, comp in ((1, 1), (1, 0), (0, 1)) if tier == 'thorough' or rng.random() < 0.5 else ((1, 1),):
                 hist = base[:b] + [['save', incl], ['load', 0, comp]] + base[b:]
